@@ -679,7 +679,7 @@ def runCmd (c : Ctx) (s : State) (conn : Nat) (ref : Nat) (inMulti : Bool) : Cmd
       else
         let (s1, r) := s.tableRef ses.dbIdx
         let old := s1.getDb r
-        { st := s1.setDb r { keys := [], nextId := old.nextId, dirty := true }, reply := vOK }
+        { st := s1.setDb r { keys := [], nextId := old.nextId, dirty := false }, reply := vOK }
   | .flushall =>
       let ses := s.session conn
       if c.q.flushDetaches then
@@ -687,7 +687,7 @@ def runCmd (c : Ctx) (s : State) (conn : Nat) (ref : Nat) (inMulti : Bool) : Cmd
         let (s2, r) := s1.tableRef ses.dbIdx
         { st := s2.setSession conn { ses with dbRef := r }, reply := vOK }
       else
-        { st := { s with heap := s.heap.map fun (r, d) => (r, { keys := [], nextId := d.nextId, dirty := true }) },
+        { st := { s with heap := s.heap.map fun (r, d) => (r, { keys := [], nextId := d.nextId, dirty := false }) },
           reply := vOK }
   | .multi | .exec | .discard => { st := s, reply := .error (sb "ERR internal: control command") }
   | .watch ks =>
